@@ -131,9 +131,12 @@ for _i in range(12):
     REMOTE["s%d" % _i] = bytes([97 + _i]) * (200 + _i)
 
 
+ALT_SCHEME = "alt://"  # a second resource (sorts before "mem://"): requests may mix resources
+
+
 def base_of(uri):
     """remote object name of a (directive-free) uri, comment stripped"""
-    return uri[len(SCHEME):].split("<<")[0]
+    return uri.split("://", 1)[1].split("<<")[0]
 
 
 def content_id(b):
@@ -161,8 +164,9 @@ class ScriptedResource:
 
     URI_PREFIX = SCHEME
 
-    def __init__(self, world):
+    def __init__(self, world, prefix=SCHEME):
         self.world = world
+        self.URI_PREFIX = prefix
 
     def valid_uri(self, uri):
         return uri.startswith(self.URI_PREFIX)
@@ -202,6 +206,7 @@ class ScriptedResource:
                     world.crash()
                 if kind == "raise_half":
                     world.fired.append(("dl", n, kind, name))
+                    world.point("dl-half-fault", n)  # the failure becomes visible only after other threads may have run
                     raise InjectedIOError(f"injected failure after half of {uri}")
                 world.point("dl-half", n)
                 fp.write(data[half:])
@@ -638,7 +643,7 @@ class World:
         if self.api == "object":
             self.cache = co.FileCache(
                 self.path, size_GB=self.size_gb, do_cache_eviction_on_startup=evict_on_start,
-                resources=[ScriptedResource(self)], parallel=self.parallel,
+                resources=[ScriptedResource(self), ScriptedResource(self, ALT_SCHEME)], parallel=self.parallel,
                 allow_for_missing_files=self.allow_missing,
             )
         else:
@@ -648,7 +653,7 @@ class World:
             fc.create_cache(
                 "lab", self.path, cache_size_GB=self.size_gb,
                 do_cache_eviction_on_startup=evict_on_start, download_in_parallel=self.parallel,
-                resources=[ScriptedResource(self)],
+                resources=[ScriptedResource(self), ScriptedResource(self, ALT_SCHEME)],
             )
             self.cache = fc.get_cache("lab")
         self.cache.disable_progress_bar = True
